@@ -231,8 +231,65 @@ static void dumpAll()
     }
 }
 
+// "ops" mode: one operator at a time on a harness-owned level, with the operand vectors registered by name so that the
+// observed footprints can be compared with the intended tables of spec/ZebraSchedule.tla
+static int opsMode(int argc, char** argv)
+{
+    int nr = atoi(argv[2]), nt = atoi(argv[3]), nc = atoi(argv[4]), dir = atoi(argv[5]), threads = atoi(argv[6]);
+    g_out = fopen(argv[7], "w");
+    static Rec rec;
+    std::vector<double> rad(nr), ang(nt + 1);
+    for (int i = 0; i < nr; i++)
+        rad[i] = 0.05 + 1.25 * i / (nr - 1) + (i % 2 ? 0.01 : 0.0);
+    rad[nr - 1] = 1.3;
+    for (int j = 0; j <= nt; j++)
+        ang[j] = 2 * M_PI * j / nt;
+    ang[nt] = 2 * M_PI;
+    double split = nc >= nr ? rad[nr - 1] + 1 : rad[nc];
+    CzarnyGeometry geom(1.3, 0.3, 1.4);
+    SonnendruckerGyroCoefficients coeff(1.3, 0.66);
+    auto grid = std::make_unique<PolarGrid>(rad, ang, split);
+    auto lc   = std::make_unique<LevelCache>(*grid, coeff, geom, true, true);
+    Level L(0, std::move(grid), std::move(lc), ExtrapolationType::NONE, false);
+    const PolarGrid& g = L.grid();
+    int N = g.numberOfNodes();
+    L.initializeResidual(geom, coeff, dir, threads, StencilDistributionMethod::CPU_GIVE);
+    L.initializeSmoothing(geom, coeff, dir, threads, StencilDistributionMethod::CPU_TAKE);
+    Vector<double> x(N), rhs(N), result(N), temp(N);
+    std::mt19937 gen(3);
+    std::uniform_real_distribution<double> U(-1, 1);
+    for (int i = 0; i < N; i++) {
+        x[i]   = U(gen);
+        rhs[i] = U(gen);
+    }
+    auto cell = [](const double* p) { return (unsigned long long)(((uintptr_t)p) >> 2); };
+    fprintf(g_out, "{\"arrays\":{\"x\":%llu,\"rhs\":%llu,\"result\":%llu,\"temp\":%llu},\"n\":%d,\"circles\":%d,\"node_of_index\":[", cell(x.begin()),
+            cell(rhs.begin()), cell(result.begin()), cell(temp.begin()), N, g.numberSmootherCircles());
+    for (int idx = 0; idx < N; idx++) {
+        int ir, it;
+        g.multiIndex(idx, ir, it);
+        fprintf(g_out, "%s%d", idx ? "," : "", ir * nt + it);
+    }
+    fprintf(g_out, "]}\n");
+    gmgpolar_verif::recorder() = &rec;
+    g_on = true;
+    fprintf(g_out, "{\"mark\":\"residualGive\",\"reg\":%ld}\n", g_region.load());
+    L.computeResidual(result, rhs, x);
+    dumpAll();
+    fprintf(g_out, "{\"mark\":\"smootherTake\",\"reg\":%ld}\n", g_region.load());
+    L.smoothing(x, rhs, temp);
+    g_on = false;
+    dumpAll();
+    fprintf(g_out, "{\"mark\":\"end\",\"reg\":%ld}\n", g_region.load());
+    fclose(g_out);
+    std::cout << "{\"summary\":true,\"circles\":" << g.numberSmootherCircles() << "}" << std::endl;
+    return 0;
+}
+
 int main(int argc, char** argv)
 {
+    if (argc >= 8 && std::string(argv[1]) == "ops")
+        return opsMode(argc, argv);
     if (argc < 3)
         return 2;
     std::ifstream in(argv[1]);
